@@ -17,7 +17,10 @@ def prove(tier, seed):
         r, S = frame_obligations(ix, rel, name, modifies=(), label="%s modifies none of its arguments" % name)
         for x in r:
             if x["status"] != "discharged":
-                x["replay"] = [dict(clause="frame.states_unmodified", function=name, input_class="frame/%s" % name, params=dict(fn=name, form=form, seed=1)) for form in ("kets", "density")]
+                if name == "symmetric_extension_hierarchy":
+                    x["replay"] = [dict(clause="sym.frame", function=name, input_class="sym/frame-E2-replay/%s" % rep, params=dict(da=2, db=2, n=3, field=field, rep=rep, prior="uniform", kind="pure", rank=1, seed=5, phases=True, level=1, dimform="list")) for rep in ("col", "dm") for field in ("real", "complex")]
+                else:
+                    x["replay"] = [dict(clause="ppt.frame", function=name, input_class="ppt/frame-E2-replay/%s" % rep, params=dict(da=2, db=2, n=3, field="complex", form="dual", sub=0, solver="cvxopt", rep=rep, prior="uniform", kind="pure", rank=1, seed=5, phases=True)) for rep in ("col", "dm", "1d")]
         records += r
         functions.append(extract.Source(rel).info(name))
     planted = {"tried": 0, "refuted": 0, "survivors": [], "anchors_missing": [], "detail": []}
